@@ -19,6 +19,14 @@ Q = 'task_queues.independent'
 
 
 def check(c):
+    # the queued flag says "sits in a queue of the queue manager": it is
+    # set through state_reset by the queueing / release code only -- never
+    # copied from another proxy (reload builds new, empty queues and relies
+    # on successors starting un-queued, so that they are pushed again)
+    c.who_writes('C05.queued-flag', 'is_queued', {
+        ('task_state:TaskState.__init__', 'assign'),
+        ('task_state:TaskState.reset', 'assign'),
+    }, floor=2)
     rel = c.func(Q, 'LimitedTaskQueue.release')
     ret = [n for n in ast.walk(rel.node) if isinstance(n, ast.Return)
            and n.value is not None]
@@ -316,6 +324,11 @@ def _in_held_loop(c, n):
 
 
 VARIANTS = [
+    ('reload-keeps-queued-flag', 'cylc/flow/task_proxy.py',
+     '        reload_successor.state.is_held = self.state.is_held\n',
+     '        reload_successor.state.is_held = self.state.is_held\n'
+     '        reload_successor.state.is_queued = self.state.is_queued\n',
+     'C05.queued-flag'),
     ('drop-limit-test', 'cylc/flow/task_queues/independent.py',
      'while not self.limit or n_active < self.limit:',
      'while not self.limit or n_active <= self.limit:',
